@@ -51,6 +51,7 @@ impl<'g> W<'g> {
                 let _ = writeln!(self.out, "{pad}harness::walk::range_leaf({var}, {:?}, {:?}, w);", a, b);
             }
             Node::Ident { name, .. } => {
+                let _ = writeln!(self.out, "{pad}harness::walk::addr({}, {var}, w);", lit(name));
                 if let Some(r) = self.g.rule(name) {
                     if r.kind == Kind::Silent {
                         let _ = writeln!(self.out, "{pad}harness::walk::silent_rule::<t::Rule, _>({var}, {}, w);", lit(name));
@@ -236,7 +237,7 @@ pub fn grammar_module(src: &GrammarSrc, with_variants: bool, with_walker: bool) 
                 let mut w = W { g: &g, out: String::new(), n: 0, has_skip };
                 w.walk(&r.expr, "root", 5);
                 o.push_str(&w.out);
-                let _ = writeln!(o, "                    o.walk = wk.findings; o.walk_events = wk.events.len() as u64; o.walk_list = wk.events;");
+                let _ = writeln!(o, "                    o.walk = wk.findings; o.walk_events = wk.events.len() as u64; o.walk_list = wk.events; o.walk_addrs = wk.addrs;");
                 let _ = writeln!(o, "                }}");
             }
         }
